@@ -249,7 +249,8 @@ class RiscV(Machine):
         self.r[2] = STACK_TOP
         self.r[1] = RET
         self.r[10], self.r[11], self.r[12] = a0, a1, a2
-        self.saved = {i: self.r[i] for i in [2, 8, 9] + list(range(18, 28)) if i < self.nregs}
+        # sp, s0-s11, and gp / tp, which the psABI reserves (a function never changes them)
+        self.saved = {i: self.r[i] for i in [2, 3, 4, 8, 9] + list(range(18, 28)) if i < self.nregs}
 
     def abi_check(self):
         out = []
